@@ -102,6 +102,38 @@ fn pats() -> Vec<Pat> {
                 vec!["", "-"],
             )],
         },
+        // a group captured by an attempt at an EARLIER start position that failed as a whole
+        // contributes nothing to the match found later (optional groups in every spelling)
+        Pat {
+            text: "(a)??b(c)??d",
+            flags: "",
+            groups: 2,
+            inputs: vec![("q", vec![], vec!["q"]), ("abx bcd", vec![vec![Some("bcd"), None, Some("c")]], vec!["abx ", ""]), ("abd-abx-bd", vec![vec![Some("abd"), Some("a"), None], vec![Some("bd"), None, None]], vec!["", "-abx-", ""])],
+        },
+        Pat {
+            text: "(a)?bd",
+            flags: "",
+            groups: 1,
+            inputs: vec![("q", vec![], vec!["q"]), ("abxbd", vec![vec![Some("bd"), None]], vec!["abx", ""]), ("abd.abx.bd", vec![vec![Some("abd"), Some("a")], vec![Some("bd"), None]], vec!["", ".abx.", ""])],
+        },
+        Pat {
+            text: "(a){0,1}?bd",
+            flags: "",
+            groups: 1,
+            inputs: vec![("q", vec![], vec!["q"]), ("abxbd", vec![vec![Some("bd"), None]], vec!["abx", ""])],
+        },
+        Pat {
+            text: "(a)*bd",
+            flags: "",
+            groups: 1,
+            inputs: vec![("q", vec![], vec!["q"]), ("aabxbd", vec![vec![Some("bd"), None]], vec!["aabx", ""])],
+        },
+        Pat {
+            text: "(?:(a)|x)?b(?:(c)|y)?d",
+            flags: "",
+            groups: 2,
+            inputs: vec![("q", vec![], vec!["q"]), ("abcx.byd", vec![vec![Some("byd"), None, None]], vec!["abcx.", ""])],
+        },
         // a group captured on a path that is abandoned contributes nothing
         Pat {
             text: "(?:x|(a))b(c)",
